@@ -52,6 +52,8 @@ def cases(tier, seed):
             yield {"kind": "single", "mbatch": mb, "pattern": "m", "lik": lik, "depth": depth, "fast_pred_var": fpv, "detach": True, "n": 25, "m": 2, "iterative": True, "seed": rnd.randrange(10**6)}
         for lik, fpv in itertools.product(["gauss", "fixed", "fixed+learn"], [False, True]):
             yield {"kind": "as_function", "lik": lik, "fast_pred_var": fpv, "seed": rnd.randrange(10**6)}
+        for depth, fpv in itertools.product([1, 2], [False, True]):
+            yield {"kind": "two_inputs", "depth": depth, "fast_pred_var": fpv, "seed": rnd.randrange(10**6)}
         for how in ("fixed_noise_missing", "sgpr", "kiss_grad_caches", "bad_target_shape"):
             yield {"kind": "failed_fantasy", "how": how, "seed": rnd.randrange(10**6), "hostile": True}
         for pol, fpv in itertools.product(["mask", "fill"], [False, True]):
@@ -169,6 +171,8 @@ def run_case(case, ctx):
         return _mt(case, ctx, g)
     if case["kind"] == "modellist":
         return _modellist(case, ctx, g)
+    if case["kind"] == "two_inputs":
+        return _two_inputs(case, ctx, g)
     if case["kind"] == "failed_fantasy":
         return _failed_fantasy(case, ctx, g)
     if case["kind"] == "nan_source":
@@ -528,6 +532,68 @@ def _modellist(case, ctx, g):
                 ctx.close("fantasy_covar", o.covariance_matrix, rc, tol, cls="modellist:covar:" + kind + (":fpv" if fpv else ""))
             cur = fm
     ctx.cell({k: v for k, v in case.items() if k != "seed"})
+
+
+def _two_inputs(case, ctx, g):
+    """fantasies of an exact GP whose forward takes two input tensors (points, task indices): the fantasy model equals
+    conditioning from scratch on the concatenated (points, indices, targets); the source is untouched"""
+    import torch
+
+    import gpytorch
+    from gpytorch import settings as S
+    from vf import util
+
+    n, m, ns, T, d = 6, 2, 3, 2, 2
+    X, I, y = util.randn(g, n, d), torch.randint(0, T, (n, 1), generator=g), util.randn(g, n)
+    xs, Is = util.randn(g, ns, d), torch.randint(0, T, (ns, 1), generator=g)
+    K = gpytorch.kernels
+
+    class Had(gpytorch.models.ExactGP):
+        def __init__(s, X_, I_, y_, lik):
+            super().__init__((X_, I_), y_, lik)
+            s.mean_module = gpytorch.means.ConstantMean()
+            s.covar_module = K.ScaleKernel(K.MaternKernel(nu=2.5))
+            s.task_covar_module = K.IndexKernel(num_tasks=T, rank=1)
+
+        def forward(s, x, i):
+            return gpytorch.distributions.MultivariateNormal(s.mean_module(x), s.covar_module(x).mul(s.task_covar_module(i)))
+
+    lik = gpytorch.likelihoods.GaussianLikelihood()
+    model = Had(X, I, y, lik)
+    util.randomize(model, g, 0.5)
+    model.eval()
+    with S.fast_pred_var(case["fast_pred_var"]), torch.no_grad():
+        model(xs, Is)
+        before = model(xs, Is)
+        bm, bc = before.mean.clone(), before.covariance_matrix.clone()
+        cur, Xa, Ia, ya = model, X, I, y
+        for level in range(case["depth"]):
+            Xf, If, yf = util.randn(g, m, d), torch.randint(0, T, (m, 1), generator=g), util.randn(g, m)
+            try:
+                fm = cur.get_fantasy_model([Xf, If], yf)
+            except Exception as e:
+                ctx.fail("fantasy_raises", f"two-input get_fantasy_model raised {type(e).__name__}: {str(e)[:160]}", "raise", exc=type(e).__name__, level=level, two_inputs=True)
+                break
+            Xa, Ia, ya = torch.cat([Xa, Xf]), torch.cat([Ia, If]), torch.cat([ya, yf])
+            with S.lazily_evaluate_kernels(False):
+                B = model.task_covar_module.covar_matrix.to_dense()
+                Xj, Ij = torch.cat([Xa, xs]), torch.cat([Ia, Is]).squeeze(-1)
+                J = model.covar_module(Xj).to_dense() * B[Ij][:, Ij]
+                mu = model.mean_module(Xj)
+            N = Xa.shape[0]
+            rm, rc, _, _ = util.dense_conditional(J[:N, :N], J[N:, :N], J[N:, N:], mu[:N], mu[N:], lik.noise.detach() * torch.eye(N), ya)
+            of = fm(xs, Is)
+            cls = f"two_inputs:d{level}:{'love' if case['fast_pred_var'] else 'exact'}"
+            ctx.close("fantasy_mean", of.mean, rm, "direct", cls=cls + ":mean")
+            ctx.close("fantasy_covar", of.covariance_matrix, rc, "loose" if case["fast_pred_var"] else "direct", cls=cls + ":covar")
+            ctx.close("fantasy_train_targets", fm.train_targets, ya, "bit")
+            ctx.close("fantasy_train_inputs", fm.train_inputs[0], Xa, "bit")
+            ctx.expect("fantasy_train_inputs", torch.equal(fm.train_inputs[1], Ia), "second input tensor (task indices) of the fantasy model is not the concatenation")
+            cur = fm
+        after = model(xs, Is)
+        ctx.expect("source_untouched", bool(torch.equal(after.mean, bm) and torch.equal(after.covariance_matrix, bc)) and torch.equal(model.train_inputs[1], I) and torch.equal(model.train_targets, y),
+                   "two-input source model changed by get_fantasy_model", changed=["prediction"])
+    ctx.cell({k: v for k, v in case.items() if k != "seed"}, nontrivial=True)
 
 
 def _failed_fantasy(case, ctx, g):
